@@ -19,7 +19,8 @@ def run(tier, only=None):
     from families import f03
 
     joins = [p for p in f03.programs(tier) if ".merge(" in p.text]
-    progs += f01.select(joins, "quick", seed() + 7, 150 if tier == "quick" else 2000)
+    multi = [p for p in joins if "two-filters" in p.note]
+    progs += f01.select([p for p in joins if "two-filters" not in p.note], "quick", seed() + 7, 150 if tier == "quick" else 2000) + (multi if tier != "quick" else multi[: len(multi) // 2])
     results, info = pfam.run(progs, prun.check_idempotent, only)
     # nested optimize(): every head collection optimised first, the continuation built on the optimised collection
     from .. import pcut
